@@ -20,6 +20,12 @@ import (
 
 func init() { register("TargetWiring", genTargetWiring) }
 
+// twFail reports a shape this piece does not understand; tools/gen isolates the failure to this piece
+// (its output is removed, so exactly the theorems that depend on the target wiring stop compiling).
+func twFail(format string, args ...interface{}) {
+	die("targets wiring: "+format, args...)
+}
+
 type twCtx struct {
 	p       *pkgFiles
 	structs map[string]*ast.StructType
@@ -100,7 +106,7 @@ func (c *twCtx) method(typ, name string) (*ast.FuncDecl, string) {
 				}
 				if id, ok := t.(*ast.Ident); ok {
 					if next != "" {
-						die("targets wiring: struct %s embeds more than one struct", typ)
+						twFail("struct %s embeds more than one struct", typ)
 					}
 					next = id.Name
 				}
@@ -170,7 +176,7 @@ func (e *twEnv) cond(x ast.Expr) string {
 	if c, ok := twConds[t]; ok {
 		return c
 	}
-	die("%s: targets wiring: unknown condition %q on a generator chain", e.c.p.pos(x), t)
+	twFail("%s: unknown condition %q on a generator chain", e.c.p.pos(x), t)
 	return ""
 }
 
@@ -187,7 +193,7 @@ func twSel(x ast.Expr) string {
 func (e *twEnv) opener(x ast.Expr) string {
 	fl, ok := x.(*ast.FuncLit)
 	if !ok {
-		die("%s: targets wiring: file opener is not a func literal", e.c.p.pos(x))
+		twFail("%s: file opener is not a func literal", e.c.p.pos(x))
 	}
 	body := fl.Body.List
 	isOpen := func(s ast.Stmt) bool {
@@ -223,13 +229,13 @@ func (e *twEnv) opener(x ast.Expr) string {
 			}
 		}
 	}
-	die("%s: targets wiring: file opener of unknown shape: %s", e.c.p.pos(x), twText(e.c.p, fl.Body))
+	twFail("%s: file opener of unknown shape: %s", e.c.p.pos(x), twText(e.c.p, fl.Body))
 	return ""
 }
 
 func (e *twEnv) argIs(call *ast.CallExpr, i int, want string) {
 	if i >= len(call.Args) || twText(e.c.p, call.Args[i]) != want {
-		die("%s: targets wiring: argument %d of %s is not %s", e.c.p.pos(call), i, twText(e.c.p, call.Fun), want)
+		twFail("%s: argument %d of %s is not %s", e.c.p.pos(call), i, twText(e.c.p, call.Fun), want)
 	}
 }
 
@@ -240,7 +246,7 @@ func (e *twEnv) eval(x ast.Expr) string {
 		if g, ok := e.vars[v.Name]; ok {
 			return g
 		}
-		die("%s: targets wiring: %s is not a known generator value", e.c.p.pos(x), v.Name)
+		twFail("%s: %s is not a known generator value", e.c.p.pos(x), v.Name)
 	case *ast.ParenExpr:
 		return e.eval(v.X)
 	case *ast.CallExpr:
@@ -272,13 +278,13 @@ func (e *twEnv) eval(x ast.Expr) string {
 		case name == "o.newIPPortGenerator" && n == 0:
 			m, recv := e.c.method(e.recv, "newIPPortGenerator")
 			if m == nil {
-				die("%s: targets wiring: no method newIPPortGenerator on %s", e.c.p.pos(x), e.recv)
+				twFail("%s: no method newIPPortGenerator on %s", e.c.p.pos(x), e.recv)
 			}
 			return twEvalFunc(e.c, m, recv)
 		}
-		die("%s: targets wiring: unknown generator constructor %s", e.c.p.pos(x), twText(e.c.p, v.Fun))
+		twFail("%s: unknown generator constructor %s", e.c.p.pos(x), twText(e.c.p, v.Fun))
 	}
-	die("%s: targets wiring: unsupported generator expression %s", e.c.p.pos(x), twText(e.c.p, x))
+	twFail("%s: unsupported generator expression %s", e.c.p.pos(x), twText(e.c.p, x))
 	return ""
 }
 
@@ -314,7 +320,7 @@ func (e *twEnv) mentions(n ast.Node) bool {
 func (e *twEnv) assign(lhs ast.Expr, rhs ast.Expr) {
 	id, ok := lhs.(*ast.Ident)
 	if !ok {
-		die("%s: targets wiring: generator assigned to a non-variable", e.c.p.pos(lhs))
+		twFail("%s: generator assigned to a non-variable", e.c.p.pos(lhs))
 	}
 	// stdin recorder: stdin := newStdinReplay(os.Stdin)
 	if call, ok := rhs.(*ast.CallExpr); ok && twText(e.c.p, call) == "newStdinReplay(os.Stdin)" {
@@ -333,7 +339,7 @@ func (e *twEnv) stmts(list []ast.Stmt) string {
 				continue
 			}
 			if len(v.Lhs) != 1 || len(v.Rhs) != 1 {
-				die("%s: targets wiring: multi-assignment involving a generator", e.c.p.pos(s))
+				twFail("%s: multi-assignment involving a generator", e.c.p.pos(s))
 			}
 			e.assign(v.Lhs[0], v.Rhs[0])
 		case *ast.DeclStmt:
@@ -342,18 +348,18 @@ func (e *twEnv) stmts(list []ast.Stmt) string {
 			}
 			gd, ok := v.Decl.(*ast.GenDecl)
 			if !ok || len(gd.Specs) != 1 {
-				die("%s: targets wiring: unsupported declaration", e.c.p.pos(s))
+				twFail("%s: unsupported declaration", e.c.p.pos(s))
 			}
 			vs := gd.Specs[0].(*ast.ValueSpec)
 			if len(vs.Names) != 1 || len(vs.Values) != 1 {
-				die("%s: targets wiring: unsupported declaration", e.c.p.pos(s))
+				twFail("%s: unsupported declaration", e.c.p.pos(s))
 			}
 			e.assign(vs.Names[0], vs.Values[0])
 		case *ast.DeferStmt:
 			fl, ok := v.Call.Fun.(*ast.FuncLit)
 			if !ok {
 				if e.mentions(v) {
-					die("%s: targets wiring: unsupported defer", e.c.p.pos(s))
+					twFail("%s: unsupported defer", e.c.p.pos(s))
 				}
 				continue
 			}
@@ -365,7 +371,7 @@ func (e *twEnv) stmts(list []ast.Stmt) string {
 				continue
 			}
 			if v.Init != nil || v.Else != nil {
-				die("%s: targets wiring: if with init/else on a generator chain", e.c.p.pos(s))
+				twFail("%s: if with init/else on a generator chain", e.c.p.pos(s))
 			}
 			c := e.cond(v.Cond)
 			// evaluate the body in a copy of the environment
@@ -375,7 +381,7 @@ func (e *twEnv) stmts(list []ast.Stmt) string {
 				// early return: the rest of the list is the else branch
 				rest := e.stmts(list[i+1:])
 				if rest == "" {
-					die("%s: targets wiring: control falls off after a conditional return", e.c.p.pos(s))
+					twFail("%s: control falls off after a conditional return", e.c.p.pos(s))
 				}
 				return fmt.Sprintf("(GIf %s %s %s)", c, ret, rest)
 			}
@@ -391,14 +397,14 @@ func (e *twEnv) stmts(list []ast.Stmt) string {
 		case *ast.ReturnStmt:
 			if len(v.Results) == 0 {
 				if e.result == "" {
-					die("%s: targets wiring: bare return without a named result", e.c.p.pos(s))
+					twFail("%s: bare return without a named result", e.c.p.pos(s))
 				}
 				return e.vars[e.result]
 			}
 			return e.eval(v.Results[0])
 		default:
 			if e.mentions(s) {
-				die("%s: targets wiring: statement of unknown kind touches a generator: %s", e.c.p.pos(s), twText(e.c.p, s))
+				twFail("%s: statement of unknown kind touches a generator: %s", e.c.p.pos(s), twText(e.c.p, s))
 			}
 		}
 	}
@@ -421,16 +427,16 @@ func twEvalFunc(c *twCtx, fd *ast.FuncDecl, recv string) string {
 	}
 	ret := e.stmts(fd.Body.List)
 	if ret == "" {
-		die("%s: targets wiring: %s does not return a generator", c.p.pos(fd), fd.Name.Name)
+		twFail("%s: %s does not return a generator", c.p.pos(fd), fd.Name.Name)
 	}
 	// deferred wrappers run after the return value is stored in the named result, last registered first
 	for i := len(e.defers) - 1; i >= 0; i-- {
 		if e.result == "" {
-			die("%s: targets wiring: deferred generator wrapper without a named result", c.p.pos(fd))
+			twFail("%s: deferred generator wrapper without a named result", c.p.pos(fd))
 		}
 		d := &twEnv{c: c, recv: recv, vars: map[string]string{e.result: ret}, replay: e.replay, result: e.result}
 		if r := d.stmts(e.defers[i].Body.List); r != "" {
-			die("%s: targets wiring: deferred function returns a value", c.p.pos(fd))
+			twFail("%s: deferred function returns a value", c.p.pos(fd))
 		}
 		ret = d.vars[e.result]
 	}
@@ -467,13 +473,13 @@ func twEvalArg(c *twCtx, fd *ast.FuncDecl, recv string, callee string, argIdx in
 		prefix = append(prefix, s)
 	}
 	if r := e.stmts(prefix); r != "" {
-		die("%s: targets wiring: %s returns before %s", c.p.pos(fd), fd.Name.Name, callee)
+		twFail("%s: %s returns before %s", c.p.pos(fd), fd.Name.Name, callee)
 	}
 	if len(e.defers) > 0 {
-		die("%s: targets wiring: deferred generator wrapper in %s", c.p.pos(fd), fd.Name.Name)
+		twFail("%s: deferred generator wrapper in %s", c.p.pos(fd), fd.Name.Name)
 	}
 	if argIdx >= len(target.Args) {
-		die("%s: targets wiring: %s has too few arguments", c.p.pos(target), callee)
+		twFail("%s: %s has too few arguments", c.p.pos(target), callee)
 	}
 	return e.eval(target.Args[argIdx])
 }
@@ -517,7 +523,7 @@ type twCommand struct{ name, gen, engine string }
 func twCommandOf(c *twCtx, ctor string) twCommand {
 	fd, ok := c.funcs[ctor]
 	if !ok {
-		die("targets wiring: constructor %s not found", ctor)
+		twFail("constructor %s not found", ctor)
 	}
 	// the command struct: c := &xCmd{}
 	cmdType := ""
@@ -531,7 +537,7 @@ func twCommandOf(c *twCtx, ctor string) twCommand {
 	})
 	optsType := c.fieldType(cmdType, "opts")
 	if optsType == "" {
-		die("%s: targets wiring: cannot find the option struct of %s", c.p.pos(fd), ctor)
+		twFail("%s: cannot find the option struct of %s", c.p.pos(fd), ctor)
 	}
 	// the tcp command delegates to the SYN options when no flags are given: newTCPSYNCmdOpts(c.opts.tcpCmdOpts)
 	seen := map[*ast.FuncDecl]string{}
@@ -579,10 +585,10 @@ func twCommandOf(c *twCtx, ctor string) twCommand {
 		}
 	}
 	if len(engines) != 1 {
-		die("%s: targets wiring: command %s starts %d kinds of engine", c.p.pos(fd), ctor, len(engines))
+		twFail("%s: command %s starts %d kinds of engine", c.p.pos(fd), ctor, len(engines))
 	}
 	if len(gens) != 1 {
-		die("%s: targets wiring: command %s builds %d different generator chains", c.p.pos(fd), ctor, len(gens))
+		twFail("%s: command %s builds %d different generator chains", c.p.pos(fd), ctor, len(gens))
 	}
 	cmd := twCommand{name: ctor}
 	for k := range engines {
@@ -599,7 +605,7 @@ func twCommandOf(c *twCtx, ctor string) twCommand {
 func twChunkLoop(c *twCtx) (size string, emptyOnce bool) {
 	fd, ok := c.funcs["startPortScanEngine"]
 	if !ok {
-		die("targets wiring: startPortScanEngine not found")
+		twFail("startPortScanEngine not found")
 	}
 	consts := map[string]constant.Value{}
 	var loop *ast.ForStmt
@@ -615,63 +621,63 @@ func twChunkLoop(c *twCtx) (size string, emptyOnce bool) {
 					}
 				}
 			}
-			die("%s: targets wiring: unexpected assignment in startPortScanEngine", c.p.pos(s))
+			twFail("%s: unexpected assignment in startPortScanEngine", c.p.pos(s))
 		case *ast.IfStmt:
 			// if len(X) == 0 { return startPacketScanEngine(ctx, conf) }
 			be, ok := v.Cond.(*ast.BinaryExpr)
 			if !ok || v.Init != nil || v.Else != nil || be.Op != token.EQL || twText(c.p, be.Y) != "0" || len(v.Body.List) != 1 {
-				die("%s: targets wiring: unexpected if in startPortScanEngine", c.p.pos(s))
+				twFail("%s: unexpected if in startPortScanEngine", c.p.pos(s))
 			}
 			lenCall, ok := be.X.(*ast.CallExpr)
 			if !ok || twText(c.p, lenCall.Fun) != "len" || len(lenCall.Args) != 1 {
-				die("%s: targets wiring: unexpected guard in startPortScanEngine", c.p.pos(s))
+				twFail("%s: unexpected guard in startPortScanEngine", c.p.pos(s))
 			}
 			ret, ok := v.Body.List[0].(*ast.ReturnStmt)
 			if !ok || len(ret.Results) != 1 || twText(c.p, ret.Results[0]) != "startPacketScanEngine(ctx, conf)" {
-				die("%s: targets wiring: unexpected guard body in startPortScanEngine", c.p.pos(s))
+				twFail("%s: unexpected guard body in startPortScanEngine", c.p.pos(s))
 			}
 			if loop != nil {
-				die("%s: targets wiring: empty-list guard after the loop", c.p.pos(s))
+				twFail("%s: empty-list guard after the loop", c.p.pos(s))
 			}
 			portsExpr = twText(c.p, lenCall.Args[0])
 			emptyOnce = true
 		case *ast.ForStmt:
 			if loop != nil {
-				die("%s: targets wiring: two loops in startPortScanEngine", c.p.pos(s))
+				twFail("%s: two loops in startPortScanEngine", c.p.pos(s))
 			}
 			loop = v
 		case *ast.ReturnStmt:
 			if len(v.Results) != 1 || twText(c.p, v.Results[0]) != "nil" {
-				die("%s: targets wiring: unexpected return in startPortScanEngine", c.p.pos(s))
+				twFail("%s: unexpected return in startPortScanEngine", c.p.pos(s))
 			}
 		default:
-			die("%s: targets wiring: unexpected statement in startPortScanEngine", c.p.pos(s))
+			twFail("%s: unexpected statement in startPortScanEngine", c.p.pos(s))
 		}
 	}
 	if loop == nil {
-		die("targets wiring: no loop in startPortScanEngine")
+		twFail("no loop in startPortScanEngine")
 	}
 	// for i := 0; i < len(X); i += S
 	init, ok := loop.Init.(*ast.AssignStmt)
 	if !ok || len(init.Lhs) != 1 || twText(c.p, init.Rhs[0]) != "0" {
-		die("%s: targets wiring: loop does not start at 0", c.p.pos(loop))
+		twFail("%s: loop does not start at 0", c.p.pos(loop))
 	}
 	iv := twText(c.p, init.Lhs[0])
 	cond, ok := loop.Cond.(*ast.BinaryExpr)
 	if !ok || cond.Op != token.LSS || twText(c.p, cond.X) != iv {
-		die("%s: targets wiring: unexpected loop condition", c.p.pos(loop))
+		twFail("%s: unexpected loop condition", c.p.pos(loop))
 	}
 	lenCall, ok := cond.Y.(*ast.CallExpr)
 	if !ok || twText(c.p, lenCall.Fun) != "len" || len(lenCall.Args) != 1 {
-		die("%s: targets wiring: unexpected loop bound", c.p.pos(loop))
+		twFail("%s: unexpected loop bound", c.p.pos(loop))
 	}
 	x := twText(c.p, lenCall.Args[0])
 	if x != "conf.scanRange.Ports" || (portsExpr != "" && portsExpr != x) {
-		die("%s: targets wiring: the loop does not run over conf.scanRange.Ports", c.p.pos(loop))
+		twFail("%s: the loop does not run over conf.scanRange.Ports", c.p.pos(loop))
 	}
 	post, ok := loop.Post.(*ast.AssignStmt)
 	if !ok || post.Tok != token.ADD_ASSIGN || twText(c.p, post.Lhs[0]) != iv {
-		die("%s: targets wiring: unexpected loop step", c.p.pos(loop))
+		twFail("%s: unexpected loop step", c.p.pos(loop))
 	}
 	step := evalInt(c.p, post.Rhs[0], func(n string) (constant.Value, bool) { v, ok := consts[n]; return v, ok })
 	stepName := twText(c.p, post.Rhs[0])
@@ -692,7 +698,7 @@ func twChunkLoop(c *twCtx) (size string, emptyOnce bool) {
 			case copyName != "" && lhs == copyName+".scanRange.Ports" && rhs == x+"["+iv+":"+hi+"]":
 				sliced = true
 			default:
-				die("%s: targets wiring: unexpected assignment in the chunk loop: %s", c.p.pos(s), t)
+				twFail("%s: unexpected assignment in the chunk loop: %s", c.p.pos(s), t)
 			}
 		case *ast.IfStmt:
 			switch {
@@ -702,18 +708,18 @@ func twChunkLoop(c *twCtx) (size string, emptyOnce bool) {
 			case v.Init != nil && copyName != "" && twText(c.p, v.Init) == "err := startPacketScanEngine(ctx, &"+copyName+")" &&
 				twText(c.p, v.Cond) == "err != nil" && len(v.Body.List) == 1 && twText(c.p, v.Body.List[0]) == "return err":
 				if !sliced {
-					die("%s: targets wiring: the engine runs before the chunk is cut", c.p.pos(s))
+					twFail("%s: the engine runs before the chunk is cut", c.p.pos(s))
 				}
 				ran = true
 			default:
-				die("%s: targets wiring: unexpected if in the chunk loop: %s", c.p.pos(s), t)
+				twFail("%s: unexpected if in the chunk loop: %s", c.p.pos(s), t)
 			}
 		default:
-			die("%s: targets wiring: unexpected statement in the chunk loop: %s", c.p.pos(s), t)
+			twFail("%s: unexpected statement in the chunk loop: %s", c.p.pos(s), t)
 		}
 	}
 	if !(clamp && sliced && ran) {
-		die("%s: targets wiring: the chunk loop lacks the clamp, the slice or the engine run", c.p.pos(loop))
+		twFail("%s: the chunk loop lacks the clamp, the slice or the engine run", c.p.pos(loop))
 	}
 	return zlit(step), emptyOnce
 }
@@ -724,7 +730,7 @@ func genTargetWiring() {
 	// the commands registered in newRootCmd: every call of a function named new...Cmd
 	root, ok := c.funcs["newRootCmd"]
 	if !ok {
-		die("targets wiring: newRootCmd not found")
+		twFail("newRootCmd not found")
 	}
 	var ctors []string
 	ast.Inspect(root.Body, func(n ast.Node) bool {
@@ -736,7 +742,7 @@ func genTargetWiring() {
 		return true
 	})
 	if len(ctors) == 0 {
-		die("targets wiring: no commands found in newRootCmd")
+		twFail("no commands found in newRootCmd")
 	}
 	sort.Strings(ctors)
 	var b bytes.Buffer
